@@ -17,7 +17,8 @@ RULE = ("full product of input spelling (directory: absolute, relative, trailing
 
 FILES = ["a.cmake", "d1/b.cmake", "d1/d2/c.cmake", "d1/d2/d3/x.y-z.cmake", "mods.cmake.d/arm.cmake",
          "d1/conf.cmake.in.cmake", ".hidden.cmake", "hidden.cmake", "-dash.cmake", "dash.cmake",
-         "d1/データ.cmake", "cafe\u0301.cmake"]     # East Asian wide characters, a combining mark
+         "d1/データ.cmake", "cafe\u0301.cmake",      # East Asian wide characters, a combining mark
+         "trail_.cmake", "_lead_.cmake", "d1/st*r|p`q.cmake"]     # characters that are reST inline markup
 SEPS = [".", "/", "::", "-"]
 
 
@@ -72,8 +73,11 @@ def settings_yaml(sep, ext_t, ext_m, headers=None, prefix=None):
 
 DIR_SPELLINGS = [("abs", "{root}/work/in", "work"), ("rel", "in", "work"), ("slash", "in/", "work"),
                  ("dot-slash", "./in", "work"), ("dot", ".", "work/in"), ("parent", "../work/in", "work"),
-                 ("abs-slash", "{root}/work/in/", "home")]
-FILE_SPELLINGS = [("abs", "{root}/work/in/{f}", "work"), ("rel", "in/{f}", "work"), ("from-dir", "{b}", "work/in/{d}")]
+                 ("abs-slash", "{root}/work/in/", "home"),
+                 # the input directory reached through a symbolic link: it is named as it was given
+                 ("symlink", "{root}/work/linkdir", "work"), ("symlink-rel", "linkdir/", "work")]
+FILE_SPELLINGS = [("abs", "{root}/work/in/{f}", "work"), ("rel", "in/{f}", "work"), ("from-dir", "{b}", "work/in/{d}"),
+                  ("symlink", "{root}/work/links/{b}", "work")]
 
 
 def run_config(job):
@@ -84,6 +88,11 @@ def run_config(job):
     obs = []
     try:
         box.build(tree())
+        os.symlink("in", box.path("work", "linkdir"))
+        os.makedirs(box.path("work", "links"))
+        for fpath in FILES[:3]:
+            # a link with the file's own base name (the base name is what the page is named after)
+            os.symlink(os.path.join("..", "in", fpath), box.path("work", "links", os.path.basename(fpath)))
         cfg_prefix = "Q" if pmode in ("cfg", "both") else None
         with open(box.path("work", "s.yaml"), "w") as f:
             f.write(settings_yaml(sep, ext_t, ext_m, headers, cfg_prefix))
@@ -113,7 +122,7 @@ def run_config(job):
                     continue
                 if pages[rst].lstrip("\n")[:1] != hc:
                     msgs.append(f"frame: title of {fpath} is not framed with the first configured header character {hc!r}")
-                pre = explicit if explicit is not None else "in"
+                pre = explicit if explicit is not None else ("linkdir" if name.startswith("symlink") else "in")
                 if not derive_ok(t, pre, sep, fpath.split("/"), ext_t):
                     msgs.append(f"title: {t!r} for {fpath} is not prefix {pre!r} + separator {sep!r} + relative path "
                                 f"(extension kept: {ext_t})   [spelling {name}]")
@@ -121,6 +130,8 @@ def run_config(job):
                     msgs.append(f"module-name: {mod!r} for {fpath} is not prefix {pre!r} + separator {sep!r} + relative "
                                 f"path (extension kept: {ext_m})   [spelling {name}]")
                 titles[fpath] = (t, mod)
+                if name.startswith("symlink") and explicit is None:
+                    continue      # named after the link: not comparable with the other spellings
                 if fpath in seen and seen[fpath] != (t, mod):
                     msgs.append(f"spelling: {fpath} is titled {(t, mod)} under spelling {name} but {seen[fpath]} under another")
                 seen.setdefault(fpath, (t, mod))
@@ -204,7 +215,7 @@ def run_config(job):
 
 # ---------------------------------------------------------------- module doccomments
 
-MOD_NAMES = [None, "", "nm", "a.b-c", "tool/arm.cmake", "工具.helpers"]
+MOD_NAMES = [None, "", "nm", "a.b-c", "tool/arm.cmake", "工具.helpers", "_detail_", "proj_*|`x`"]
 MOD_BODIES = [[], ["Module body one."], ["Module body one.", "  indented second"]]
 MOD_INDENTS = ["", "  ", "      ", "        ", "\t", "GAP2", "GAPTAB"]   # the last two: '#[[[  @module', '#[[[<TAB>@module' 
 MOD_NEXT = ["documented", "undocumented", "none"]
@@ -311,7 +322,7 @@ def run(ctx):
     mjobs += [(sep, "none", False, False, hdr) for sep in SEPS[:2] for hdr in (("=", "-", "~"), ("^", "*"))]
     ctx.sweep(run_modules, mjobs, space="module doccomments", selftest=1, chunk=1)
     ctx.cov["bounds"] = {"files": FILES, "separators": SEPS, "dir_spellings": [s[0] for s in DIR_SPELLINGS],
-                         "file_spellings": [s[0] for s in FILE_SPELLINGS], "module_variants": 6 * 3 * 7 * 3}
+                         "file_spellings": [s[0] for s in FILE_SPELLINGS], "module_variants": len(MOD_NAMES) * 3 * 7 * 3}
     ctx.assumptions += ["path components may be joined by the OS separator or by the configured separator (both accepted)",
                         "a lone input file has a prefix only when one is configured explicitly"]
     return RULE
